@@ -20,8 +20,8 @@ def run(tier):
     def J(name, budget, prefix, rule):
         return Job("harness.c08", name, H.shards(name, prefix), budget, bounds=dict(harness=name), rule=rule, describe=H.describe)
     if tier == "quick":
-        jobs = [J("rt_types_enc1", 60, 3, "one path = one type shape"), J("rt_inferred_tiny", 60, 3, "one path = pair of value shapes x k class x rewriter on/off"),
-                J("rt_trace", 200, 4, "one path = function x bound arguments x arg/return/yield slots")]
+        jobs = [J("rt_types_enc1", 200, 3, "one path = one type shape"), J("rt_inferred_tiny", 200, 3, "one path = pair of value shapes x k class x rewriter on/off"),
+                J("rt_trace", 400, 4, "one path = function x bound arguments x arg/return/yield slots")]
     else:
         jobs = [J("rt_types_enc1", 60, 3, "one path = one type shape"), J("rt_inferred_tiny", 60, 3, "pairs of value shapes x k class x rewriter on/off"),
                 J("rt_types_enc2", 400, 4, "one path = one type shape (depth 2)"),
